@@ -400,6 +400,7 @@ def run_case(acc, c, spec, stacks):
     key = (c["v1"], plat)
     prev = stacks.get(("prev", key))
     if prev is not None and "same_tx_as_previous" not in c and c["form"] != "hash" and \
+            not c.get("sized_tx") and \
             "tx" in prev[1] and random.Random(c["seed"] ^ 0x5bd1e995).random() < 0.25:
         # replays need the predecessor too
         c["same_tx_as_previous"] = {k: v for k, v in prev[0].items()
